@@ -7,7 +7,8 @@ release, close`, `Entity._save_` (insert / optimistic and pessimistic update / d
 `SQLiteProvider.set_transaction_mode, commit, rollback, drop, release, acquire_lock, release_lock`,
 `DBAPIProvider.commit/rollback/release/drop/execute`, `wrap_dbapi_exceptions`, the REAL `SQLitePool`
 (`Pool.connect/release/drop`, `SQLitePool._connect/drop/disconnect`) - against the REAL `sqlite3` engine on a REAL
-database file (a `tempfile.TemporaryDirectory`, removed when the worker process ends).
+database file (in a temporary directory - under /dev/shm when that exists, else the default temp dir or $C17_TMPDIR -
+removed when the worker process ends).
 
 Instrumentation: the pool object is a real `SQLitePool(False, <file>, True)` handed to the real `SQLiteProvider` through
 pony's `pony_pool_mockup` keyword; the `sqlite` module global of pony.orm.dbproviders.sqlite (the name
@@ -29,11 +30,11 @@ Afterwards a FRESH `sqlite3` connection reads every table of the file.
 Symbolic (decided by CrossHair/z3): the fault position k1 (0 = none; 1..KMAX), the failure kind `kind1` (0 = (i) error
 before effect, 1 = (ii) dies, 2 = (iii) error after effect), a second fault position k2 > k1 with its own kind (a fault
 sequence: e.g. the INSERT fails and then the ROLLBACK fails, or the connection dies during cleanup), in the thorough
-tier a third one, the session mode (0 optimistic, 1 `immediate=True`, 2 `serializable=True`,
-3 `optimistic=False`) and `warm` (the faulted session finds a pooled connection left by an earlier session / has to
-open a new one, so the PRAGMAs of `_connect` are fault positions too).  One harness function per write program, so the
-programs run in parallel worker processes.  The programs (function `p_*` + its reference in `PROGRAMS`) are a fixed
-family: insert; update (transfer); delete (with m2m cascade); m2m add/remove; raw `db.execute` before / after ORM writes;
+tier a third one, the session mode (0 optimistic, 1 `immediate=True`, 2 `serializable=True`; thorough tier also
+3 `optimistic=False`) and, in the thorough tier, `warm` (the faulted session finds a pooled connection left by an earlier
+session; otherwise - and always in the quick tier - it has to open a new one, so that the PRAGMAs of `_connect` are fault
+positions too).  One harness function per write program, so the programs run in parallel worker processes.
+The programs (function `p_*` + its reference in `PROGRAMS`) are a fixed family: insert; update (transfer); delete (with m2m cascade); m2m add/remove; raw `db.execute` before / after ORM writes;
 `db.insert`; a raw cursor from `db.get_connection()`; bulk `Query.delete`; two explicit flushes; `commit()` in the middle
 (ORM and raw); `rollback()` in the middle; a nested db_session (whose exit must not commit); `get_for_update` /
 `for_update()` reads before the writes; a `@db_session(retry=1, retry_exceptions=[OperationalError])` function (a survivable
@@ -60,13 +61,20 @@ change lists in `PROGRAMS`, not from pony):
   A4 without a fault the session raises nothing and leaves the last state.
 An exception from the faulted session itself is always acceptable.
 
+Concrete tie (`tie_main`, run by checks/c17.py beside the harnesses, reported as 'concrete-tie', NOT solver-quantified):
+the same sessions in forked child processes that really end with os._exit at statement k, for every k; another
+process (the parent) then opens the file, so SQLite's hot-journal recovery runs for real and A1/A2 are judged on it.
+It ties the "dies" stand-in to actual process death at statement boundaries.
+
 Deviations from DESIGN.md C17: none in substance.  Added beyond it: failure kind (iii), the second / third fault
-position, `warm`, the pessimistic mode, the A3 follow-up session, the nested / for_update / retry programs.  Bounds: KMAX
-statements per faulted session (a path that issues more fails the harness).  Quick tier: one fault of any kind, or two
-faults (i)+(i) / (i)+(ii).  Thorough tier: two faults of every kind combination, or three faults (i)+(i)+(i) /
-(i)+(i)+(ii).  Programs are enumerated (not solver-quantified).  Outside: PostgreSQL autocommit switching (no server), OS-level crashes in the
-middle of a single SQLite call (SQLite's journal is trusted), sessions spanning two databases (pony documents
-PartialCommitException for them), threads.
+position, `warm`, the pessimistic mode, the A3 follow-up session, the nested / for_update / retry programs, the
+process-death tie.  Bounds: KMAX statements per faulted session (a path that issues more fails the harness).
+Quick tier: new connection only, three session modes, one fault of any kind, or two faults (i)+(i) / (i)+(ii).
+Thorough tier: pooled or new connection, four modes, two faults of every kind combination, or three faults
+(i)+(i)+(i) / (i)+(i)+(ii).  Programs are enumerated (not solver-quantified).
+Outside: PostgreSQL autocommit switching (no server); OS-level crashes in the middle of a single SQLite call (SQLite's
+journal is trusted); sessions spanning two databases (pony documents PartialCommitException for them); threads; a
+body that catches the database error and goes on writing in the same session.
 """
 import os, shutil, sqlite3, sys
 from engine.ch import ok
@@ -76,6 +84,7 @@ KMAX = int(os.environ.get('C17_KMAX', '48'))     # fault positions range over 0.
 K2MAX = int(os.environ.get('C17_K2MAX', '0'))    # second fault position (0 = off); set by checks/c17.py
 K3MAX = int(os.environ.get('C17_K3MAX', '0'))    # third fault position (thorough tier)
 FULL = os.environ.get('C17_FULL') == '1'         # thorough tier: every kind combination for two faults
+WARM = os.environ.get('C17_WARM') == '1'         # thorough tier: the faulted session may also find a pooled connection
 KINDS = 3
 EXIT_DIED = 9
 MODES = int(os.environ.get('C17_MODES', '4'))
@@ -284,8 +293,18 @@ def setup():
     from pony.orm.dbproviders import sqlite as psqlite
     core.time = lambda: 0.0
     plan = Plan()
-    TMP = tempfile.mkdtemp(prefix='verif_c17_')
+    shm = '/dev/shm'         # a RAM-backed file system when there is one: every path copies the file and SQLite fsyncs on each commit
+    TMP = tempfile.mkdtemp(prefix='verif_c17_', dir=shm if os.path.isdir(shm) and os.access(shm, os.W_OK) and not os.environ.get('C17_TMPDIR') else os.environ.get('C17_TMPDIR'))
     atexit.register(_cleanup)
+    try:                      # directories left behind by killed workers (older than an hour)
+        import time as _time
+        parent = os.path.dirname(TMP)
+        for d in os.listdir(parent):
+            full = os.path.join(parent, d)
+            if d.startswith('verif_c17_') and full != TMP and _time.time() - os.path.getmtime(full) > 3600:
+                shutil.rmtree(full, ignore_errors=True)
+    except OSError:
+        pass
     mpu.Finalize(None, _cleanup, exitpriority=10)          # multiprocessing workers leave through os._exit: atexit does not run there
     DBFILE = os.path.join(TMP, 'c17.sqlite')
     TEMPLATE = os.path.join(TMP, 'template.sqlite')
@@ -656,7 +675,7 @@ def tie_main():
     import json
     from pony.orm import db_session
     setup()
-    modes = range(4 if os.environ.get('C17_FULL') == '1' else 3)
+    modes = range(MODES)
     only = [x for x in os.environ.get('C17_TIE_PROGRAMS', '').split(',') if x]
     for name in (only or PROGRAMS):
         body = PROGRAMS[name][0]
@@ -721,6 +740,7 @@ def insert(k1: int, k2: int, k3: int, kind1: int, kind2: int, kind3: int, mode: 
     pre: FULL or k2 == 0 or (kind1 == 0 and kind2 <= 1)
     pre: k3 == 0 or (kind1 == 0 and kind2 == 0 and kind3 <= 1)
     pre: 0 <= mode < MODES
+    pre: WARM or not warm
     post: _
     """
     return ok(_scenario('insert', k1, k2, k3, kind1, kind2, kind3, mode, warm))
@@ -738,6 +758,7 @@ def update(k1: int, k2: int, k3: int, kind1: int, kind2: int, kind3: int, mode: 
     pre: FULL or k2 == 0 or (kind1 == 0 and kind2 <= 1)
     pre: k3 == 0 or (kind1 == 0 and kind2 == 0 and kind3 <= 1)
     pre: 0 <= mode < MODES
+    pre: WARM or not warm
     post: _
     """
     return ok(_scenario('update', k1, k2, k3, kind1, kind2, kind3, mode, warm))
@@ -755,6 +776,7 @@ def delete(k1: int, k2: int, k3: int, kind1: int, kind2: int, kind3: int, mode: 
     pre: FULL or k2 == 0 or (kind1 == 0 and kind2 <= 1)
     pre: k3 == 0 or (kind1 == 0 and kind2 == 0 and kind3 <= 1)
     pre: 0 <= mode < MODES
+    pre: WARM or not warm
     post: _
     """
     return ok(_scenario('delete', k1, k2, k3, kind1, kind2, kind3, mode, warm))
@@ -772,6 +794,7 @@ def m2m(k1: int, k2: int, k3: int, kind1: int, kind2: int, kind3: int, mode: int
     pre: FULL or k2 == 0 or (kind1 == 0 and kind2 <= 1)
     pre: k3 == 0 or (kind1 == 0 and kind2 == 0 and kind3 <= 1)
     pre: 0 <= mode < MODES
+    pre: WARM or not warm
     post: _
     """
     return ok(_scenario('m2m', k1, k2, k3, kind1, kind2, kind3, mode, warm))
@@ -789,6 +812,7 @@ def raw_first(k1: int, k2: int, k3: int, kind1: int, kind2: int, kind3: int, mod
     pre: FULL or k2 == 0 or (kind1 == 0 and kind2 <= 1)
     pre: k3 == 0 or (kind1 == 0 and kind2 == 0 and kind3 <= 1)
     pre: 0 <= mode < MODES
+    pre: WARM or not warm
     post: _
     """
     return ok(_scenario('raw_first', k1, k2, k3, kind1, kind2, kind3, mode, warm))
@@ -806,6 +830,7 @@ def orm_first(k1: int, k2: int, k3: int, kind1: int, kind2: int, kind3: int, mod
     pre: FULL or k2 == 0 or (kind1 == 0 and kind2 <= 1)
     pre: k3 == 0 or (kind1 == 0 and kind2 == 0 and kind3 <= 1)
     pre: 0 <= mode < MODES
+    pre: WARM or not warm
     post: _
     """
     return ok(_scenario('orm_first', k1, k2, k3, kind1, kind2, kind3, mode, warm))
@@ -823,6 +848,7 @@ def db_insert(k1: int, k2: int, k3: int, kind1: int, kind2: int, kind3: int, mod
     pre: FULL or k2 == 0 or (kind1 == 0 and kind2 <= 1)
     pre: k3 == 0 or (kind1 == 0 and kind2 == 0 and kind3 <= 1)
     pre: 0 <= mode < MODES
+    pre: WARM or not warm
     post: _
     """
     return ok(_scenario('db_insert', k1, k2, k3, kind1, kind2, kind3, mode, warm))
@@ -840,6 +866,7 @@ def get_connection(k1: int, k2: int, k3: int, kind1: int, kind2: int, kind3: int
     pre: FULL or k2 == 0 or (kind1 == 0 and kind2 <= 1)
     pre: k3 == 0 or (kind1 == 0 and kind2 == 0 and kind3 <= 1)
     pre: 0 <= mode < MODES
+    pre: WARM or not warm
     post: _
     """
     return ok(_scenario('get_connection', k1, k2, k3, kind1, kind2, kind3, mode, warm))
@@ -857,6 +884,7 @@ def bulk_delete(k1: int, k2: int, k3: int, kind1: int, kind2: int, kind3: int, m
     pre: FULL or k2 == 0 or (kind1 == 0 and kind2 <= 1)
     pre: k3 == 0 or (kind1 == 0 and kind2 == 0 and kind3 <= 1)
     pre: 0 <= mode < MODES
+    pre: WARM or not warm
     post: _
     """
     return ok(_scenario('bulk_delete', k1, k2, k3, kind1, kind2, kind3, mode, warm))
@@ -874,6 +902,7 @@ def two_flushes(k1: int, k2: int, k3: int, kind1: int, kind2: int, kind3: int, m
     pre: FULL or k2 == 0 or (kind1 == 0 and kind2 <= 1)
     pre: k3 == 0 or (kind1 == 0 and kind2 == 0 and kind3 <= 1)
     pre: 0 <= mode < MODES
+    pre: WARM or not warm
     post: _
     """
     return ok(_scenario('two_flushes', k1, k2, k3, kind1, kind2, kind3, mode, warm))
@@ -891,6 +920,7 @@ def commit_mid(k1: int, k2: int, k3: int, kind1: int, kind2: int, kind3: int, mo
     pre: FULL or k2 == 0 or (kind1 == 0 and kind2 <= 1)
     pre: k3 == 0 or (kind1 == 0 and kind2 == 0 and kind3 <= 1)
     pre: 0 <= mode < MODES
+    pre: WARM or not warm
     post: _
     """
     return ok(_scenario('commit_mid', k1, k2, k3, kind1, kind2, kind3, mode, warm))
@@ -908,6 +938,7 @@ def commit_mid_raw(k1: int, k2: int, k3: int, kind1: int, kind2: int, kind3: int
     pre: FULL or k2 == 0 or (kind1 == 0 and kind2 <= 1)
     pre: k3 == 0 or (kind1 == 0 and kind2 == 0 and kind3 <= 1)
     pre: 0 <= mode < MODES
+    pre: WARM or not warm
     post: _
     """
     return ok(_scenario('commit_mid_raw', k1, k2, k3, kind1, kind2, kind3, mode, warm))
@@ -925,6 +956,7 @@ def rollback_mid(k1: int, k2: int, k3: int, kind1: int, kind2: int, kind3: int, 
     pre: FULL or k2 == 0 or (kind1 == 0 and kind2 <= 1)
     pre: k3 == 0 or (kind1 == 0 and kind2 == 0 and kind3 <= 1)
     pre: 0 <= mode < MODES
+    pre: WARM or not warm
     post: _
     """
     return ok(_scenario('rollback_mid', k1, k2, k3, kind1, kind2, kind3, mode, warm))
@@ -942,6 +974,7 @@ def nested(k1: int, k2: int, k3: int, kind1: int, kind2: int, kind3: int, mode: 
     pre: FULL or k2 == 0 or (kind1 == 0 and kind2 <= 1)
     pre: k3 == 0 or (kind1 == 0 and kind2 == 0 and kind3 <= 1)
     pre: 0 <= mode < MODES
+    pre: WARM or not warm
     post: _
     """
     return ok(_scenario('nested', k1, k2, k3, kind1, kind2, kind3, mode, warm))
@@ -959,6 +992,7 @@ def for_update(k1: int, k2: int, k3: int, kind1: int, kind2: int, kind3: int, mo
     pre: FULL or k2 == 0 or (kind1 == 0 and kind2 <= 1)
     pre: k3 == 0 or (kind1 == 0 and kind2 == 0 and kind3 <= 1)
     pre: 0 <= mode < MODES
+    pre: WARM or not warm
     post: _
     """
     return ok(_scenario('for_update', k1, k2, k3, kind1, kind2, kind3, mode, warm))
@@ -976,6 +1010,7 @@ def retry(k1: int, k2: int, k3: int, kind1: int, kind2: int, kind3: int, mode: i
     pre: FULL or k2 == 0 or (kind1 == 0 and kind2 <= 1)
     pre: k3 == 0 or (kind1 == 0 and kind2 == 0 and kind3 <= 1)
     pre: 0 <= mode < MODES
+    pre: WARM or not warm
     post: _
     """
     return ok(_scenario('retry', k1, k2, k3, kind1, kind2, kind3, mode, warm))
